@@ -168,7 +168,8 @@ def clamp_check(ctx, fn, size_texts, clause, rule="SIB-3"):
     clamps = []
     for f, c in calls_in(fn, False):
         if isinstance(c.func, ast.Name) and c.func.id == "min" and repo.dotted(f, c.func) == "builtins.min" and len(c.args) == 2:
-            texts = {norm(a) for a in c.args}
+            from ..forms import resolved_text as _rt
+            texts = {norm(a) for a in c.args} | {_rt(fn, a, c) for a in c.args}
             par = fn.module.parent.get(c)
             if isinstance(par, ast.Assign) and isinstance(par.targets[0], ast.Name) and par.targets[0].id in texts \
                     and texts & set(size_texts):
@@ -187,6 +188,10 @@ def clamp_check(ctx, fn, size_texts, clause, rule="SIB-3"):
                     continue
                 if un.kind == "test" and "None" in norm(un.ast):
                     continue
+                # n = default if n is None else n  -- the default handling written as a conditional expression
+                if un.kind == "stmt" and isinstance(un.ast, ast.Assign) and isinstance(un.ast.value, ast.IfExp) \
+                        and "None" in norm(un.ast.value.test) and any(isinstance(t, ast.Name) and t.id == var for t in un.ast.targets):
+                    continue
                 if not cfg.dominates(cn, un):
                     ok = False
                     node = n
@@ -200,8 +205,13 @@ def clamp_check(ctx, fn, size_texts, clause, rule="SIB-3"):
         var = clamps[0][0].targets[0].id
         for n in body_nodes(fn.node):
             if isinstance(n, ast.Assign) and n is not clamps[0][0] and any(isinstance(t, ast.Name) and t.id == var for t in n.targets):
-                facts = facts_at(fn, n)
+                facts = set(facts_at(fn, n))
                 okd = ("T", f"{var} is None") in facts or ("F", f"{var} is not None") in facts
+                if isinstance(n.value, ast.IfExp):
+                    # n = default if n is None else n : every leaf other than n itself must be under `n is None`
+                    from ..forms import split_ifexp
+                    okd = all((isinstance(leaf, ast.Name) and leaf.id == var) or ("T", f"{var} is None") in (facts | set(f_))
+                              or ("F", f"{var} is not None") in (facts | set(f_)) for leaf, f_ in split_ifexp(n.value))
                 ctx.ob(rule, fn, f"{norm(n)} only when {var} is None", n, okd,
                        "the default count replaces a count that was not given" if okd else
                        f"{norm(n)} is not under `{var} is None`: a count given by the caller is replaced by the default "
